@@ -1,0 +1,19 @@
+// apparmor.d - Full set of apparmor profiles
+// SPDX-License-Identifier: GPL-2.0-only
+
+//go:build verif
+
+// Machine-checked contracts for aa-log (comment-only; only part of the package under the
+// build tag "verif").
+package main
+
+// aaLog is the root of the call graph on which every range over a Go map must be
+// order-independent and on which only the declared package variables may be written:
+//   - pkg/logs.quoted: quote state of the field splitter, reset for every record (see the
+//     write-before-read clause on logs.New);
+//   - pkg/aa.IndentationLevel: moved up and down in pairs by the rule templates
+//     (setindent "++" / "--"); that the pairs balance is not verified.
+//@ func aaLog
+//@   opt prop=C14
+//@   trusted
+//@   opt globalwrites=pkg/logs.quoted,pkg/aa.IndentationLevel
